@@ -15,7 +15,6 @@ model is broken and the check says so.
 from __future__ import annotations
 
 import asyncio
-import gc
 import itertools
 
 from vlib.common import Run, Finding, BrokenTie, coq_eval_many, parse_eval, parse_coq_list, listlit
@@ -65,6 +64,7 @@ class Harness:
         self.reqs = {}          # ticket -> request object (as a library user would keep it)
         self.nerr = 0
         self.reply_id = 0
+        self.tracked = {}
 
         def on_sent(e):
             r = e.query
@@ -106,10 +106,30 @@ class Harness:
         finally:
             asyncio.events._set_running_loop(None)
 
+    def _track(self):
+        """Watch every task of the loop: an exception escaping a task is what the loop's exception
+        handler would report when the task object is collected ('Task exception was never
+        retrieved'); observing it in a done-callback makes the instant deterministic."""
+        for t in asyncio.all_tasks(self.loop):
+            if id(t) not in self.tracked:
+                self.tracked[id(t)] = t
+                t.add_done_callback(self._task_done)
+
+    def _task_done(self, t):
+        self.tracked.pop(id(t), None)
+        if t.cancelled():
+            return
+        exc = t.exception()
+        if exc is None:
+            return
+        if isinstance(exc, KeyError) and exc.args and isinstance(exc.args[0], int):
+            self.events.append(('errkey', exc.args[0], self.t()))
+        else:
+            self.events.append(('other', f'{type(exc).__name__} escaped a task'))
+
     def settle(self):
         for _ in range(4):
-            self.loop.run_ready(6)
-            gc.collect()
+            self.loop.run_ready(8)
             nxt = self.loop._next_timer()
             if not self.loop._ready and (nxt is None or nxt > self.loop.time()):
                 return
@@ -173,20 +193,19 @@ class Harness:
             self.settle()
         elif k == 'run':
             self.settle()
+            target = self.loop.time() + op[1]
             self.loop.run_for(op[1])
+            if self.loop.time() < target:     # vloop stops at the last timer when none is left: let the rest pass
+                self.loop.advance(target - self.loop.time())
             self.settle()
         elif k == 'lag':
             self.loop.advance(op[1])
         else:
             raise ValueError(op)
-        gc.collect()
+        self._track()
         new = self.events[ev0:] + extra
         for ctx in self.loop.unhandled[self.nerr:]:
-            exc = ctx.get('exception')
-            if isinstance(exc, KeyError) and exc.args and isinstance(exc.args[0], int) and 'Task exception was never retrieved' in ctx.get('message', ''):
-                new.append(('errkey', exc.args[0], self.t()))
-            else:
-                new.append(('other', f"{type(exc).__name__}: {ctx.get('message')}"))
+            new.append(('other', f"{type(ctx.get('exception')).__name__}: {ctx.get('message')}"))
         self.nerr = len(self.loop.unhandled)
         handles = sorted((tk, r.timer is not None and r.timer._task is not None) for tk, r in self.reqs.items())
         stored = sorted((tk, len(r.results)) for tk, r in self.reqs.items())
@@ -290,6 +309,7 @@ def monitor(ops, obs):
     deadline = {}      # tk -> currently armed deadline or None
     lag = False
     fired = {}
+    armed_dead = {}
     for op, o in zip(ops, obs):
         now_before = None
         k = op[0]
@@ -331,10 +351,12 @@ def monitor(ops, obs):
                 pre = _check_fire(t, at, sent, timer_ops, deadline, lag, fired)
                 if pre:
                     viol.extend(pre)
-                elif t in manual and not any(x[0] == 'T' for x in timer_ops.get(t, [])):
-                    viol.append((F22_KEY, f'KeyError({t}) in the timer task of a request removed with remove_request', {}))
+                elif armed_dead.get(t):
+                    pass   # the user re-armed the timer of a request that was no longer registered: the caller's doing
                 elif t in manual:
-                    viol.append(('error-after-manual-removal', f'KeyError({t}) in a timer task after remove_request (timer was re-armed)', {}))
+                    viol.append((F22_KEY, f'KeyError({t}) in the timer task of a request removed with remove_request', {}))
+                elif _f23_shape(timer_ops.get(t, [])):
+                    viol.append((F23_KEY, f'KeyError({t}): a second task of the same timer ran after the request was already timed out', {}))
                 else:
                     viol.append(('timer-task-error', f'KeyError({t}) in a timer task of a request that was not removed by the user', {}))
             elif e[0] == 'removeok':
@@ -356,6 +378,8 @@ def monitor(ops, obs):
             else:
                 tau = op[2] if op[2] is not None else _cur_timeout(tk, sent, timer_ops)
                 deadline[tk] = o['now'] + max(tau, 0)
+                if tk not in live:
+                    armed_dead[tk] = True
                 ran_since_start[tk] = False
         if set(o['requests']) != live:
             viol.append(('requests-map-differs-from-history', f'requests={o["requests"]} but the event history says {sorted(live)}', {}))
@@ -378,29 +402,30 @@ def _cur_timeout(tk, sent, timer_ops):
     return tau
 
 
+def _f23_shape(ops_t):
+    """the timer was re-armed with reschedule() and, after the loop ran, cancelled or re-armed again"""
+    idx_t = [i for i, x in enumerate(ops_t) if x[0] == 'T']
+    return bool(idx_t) and any(x[3] for x in ops_t[idx_t[0] + 1:])
+
+
 def _check_fire(t, at, sent, timer_ops, deadline, lag, fired):
     """A timer task of request t ran its callback at time `at`: was that deadline armed?"""
-    v = []
     if t not in sent or sent[t][1] <= 0:
         return [('fire-without-timer', f'timer fired for ticket {t} which has no timer', {})]
     ops_t = timer_ops.get(t, [])
     d = deadline.get(t)
     # F23 shape: the timer was re-armed (reschedule) and, after the loop ran, cancelled or re-armed again
-    idx_t = [i for i, x in enumerate(ops_t) if x[0] == 'T']
-    f23 = bool(idx_t) and any(x[3] for x in ops_t[idx_t[0] + 1:])
-    key = F23_KEY if f23 else None
+    key = F23_KEY if _f23_shape(ops_t) else None
     if d is None:
-        v.append((key or 'cancelled-timer-fired', f'timer of request {t} fired at {at} although it was cancelled', {}))
-    elif at < d:
-        v.append((key or 'superseded-deadline-fired', f'timer of request {t} fired at {at}, before the armed deadline {d}', {}))
-    elif at > d and not lag:
-        v.append((key or 'timeout-late', f'timer of request {t} fired at {at}, after the armed deadline {d}', {}))
-    elif fired.get(t, 0) > 1:
-        v.append((key or 'timer-fired-twice', f'timer of request {t} fired {fired[t]} times', {}))
-    if not v:
-        deadline[t] = None if at >= (d or 0) else d
-        deadline[t] = 'done'
-    return [x for x in v]
+        return [(key or 'cancelled-timer-fired', f'timer of request {t} fired at {at} although it was cancelled', {})]
+    if d == 'fired':
+        return [(key or 'timer-fired-twice', f'timer of request {t} fired {fired[t]} times for one armed deadline', {})]
+    if at < d:
+        return [(key or 'superseded-deadline-fired', f'timer of request {t} fired at {at}, before the armed deadline {d}', {})]
+    if at > d and not lag:
+        return [(key or 'timeout-late', f'timer of request {t} fired at {at}, after the armed deadline {d}', {})]
+    deadline[t] = 'fired'
+    return []
 
 
 # --------------------------------------------------------------------------------------------
